@@ -142,7 +142,7 @@ theorem res_polyModEq (q : Nat) (hq : 0 < q) (a : Poly) :
 /-- **one lane**: under `NttIsRingIso` the lane of prime `q` carries the exact product modulo `q` -/
 theorem laneK_polyModEq (n q h : Nat) (ntt intt : List Nat → List Nat) (iso : NttIsRingIso n q ntt intt)
     (hq : 1 < q) (hq31 : q < 2 ^ 31) (hh : 16 ≤ h) (hh2 : h < 32)
-    (hu64 : ∀ v, v.length = n → ∀ i, i < n → (ntt v).getD i 0 < 2 ^ 64)
+    (hu64 : ∀ v, v.length = n → (∀ i, i < n → v.getD i 0 < 2 ^ 64) → ∀ i, i < n → (ntt v).getD i 0 < 2 ^ 64)
     (p x : Poly) (hp : p.length = n) (hx : x.length = n)
     (hpr : ∀ c ∈ p, -(2 ^ 63) ≤ c ∧ c < 2 ^ 63) (hxr : ∀ c ∈ x, -(2 ^ 63) ≤ c ∧ c < 2 ^ 63) :
     PolyModEq q n (laneK q h ntt intt p x) (negMul p x) := by
@@ -165,7 +165,14 @@ theorem laneK_polyModEq (n q h : Nat) (ntt intt : List Nat → List Nat) (iso : 
     refine VecModEq.trans ⟨by simp [Lp, Lx], by simp [Lp, Lx], ?_⟩ M.symm
     intro i hi
     rw [getD_zipWith_lt _ _ _ i 0 0 0 (by omega) (by omega), getD_zipWith_lt _ _ _ i 0 0 0 (by omega) (by omega)]
-    have := (slotProductK_modEq q h ((ntt ux).getD i 0) ((ntt up).getD i 0) hq hq31 hh hh2 (hu64 ux Px.1 i hi)).1
+    have hux64 : ∀ j, j < n → ux.getD j 0 < 2 ^ 64 := by
+      intro j hj
+      rw [hux, getD_map_lt x _ j 0 0 (by omega)]
+      have hm : x.getD j 0 ∈ x := by
+        rw [List.getD_eq_getElem?_getD, List.getElem?_eq_getElem (by omega)]; simp
+      have := bFromU64K_range q (by omega) (by omega) (x.getD j 0) (hxr _ hm).1 (hxr _ hm).2
+      omega
+    have := (slotProductK_modEq q h ((ntt ux).getD i 0) ((ntt up).getD i 0) hq hq31 hh hh2 (hu64 ux Px.1 hux64 i hi)).1
     rw [Nat.mul_comm] at this
     exact this
   have I := (iso.intt_congr _ _ S).trans (iso.intt_ntt w Pw.1)
@@ -185,7 +192,7 @@ theorem nttPipeline_exact (P : PrimeSet) (g : P.Good) (hq31 : P.q0 < 2 ^ 31 ∧ 
     (n h : Nat) (hh : 16 ≤ h) (hh2 : h < 32) (ntt intt : Nat → List Nat → List Nat)
     (iso0 : NttIsRingIso n P.q0 (ntt 0) (intt 0)) (iso1 : NttIsRingIso n P.q1 (ntt 1) (intt 1))
     (iso2 : NttIsRingIso n P.q2 (ntt 2) (intt 2)) (iso3 : NttIsRingIso n P.q3 (ntt 3) (intt 3))
-    (hu64 : ∀ k v, v.length = n → ∀ i, i < n → (ntt k v).getD i 0 < 2 ^ 64)
+    (hu64 : ∀ k v, v.length = n → (∀ i, i < n → v.getD i 0 < 2 ^ 64) → ∀ i, i < n → (ntt k v).getD i 0 < 2 ^ 64)
     (p x : Poly) (hp : p.length = n) (hx : x.length = n)
     (hpr : ∀ c ∈ p, -(2 ^ 63) ≤ c ∧ c < 2 ^ 63) (hxr : ∀ c ∈ x, -(2 ^ 63) ≤ c ∧ c < 2 ^ 63)
     (hbound : ∀ i, i < n → -(((bigQ P : Int) - 1) / 2) ≤ (negMul p x).getD i 0 ∧ (negMul p x).getD i 0 ≤ ((bigQ P : Int) - 1) / 2) :
